@@ -293,7 +293,9 @@ func (g *Gen) Hostile() (kind string, body []byte) {
 			return "json-scalar", []byte("{}")
 		}
 		lf := leaves[r.Intn(len(leaves))]
-		v := r.PickF(0, -1, -0.2, 0.1, 1, 2, 1e6, -1e6, 0.5)
+		// moderate values plus values so small that adding them changes nothing in float64 (a step
+		// that makes no progress is a liveness matter; merely slow inputs such as 1e-9 are not generated)
+		v := r.PickF(0, -1, -0.2, 0.1, 1, 2, 1e6, -1e6, 0.5, 1e-20, 5e-324)
 		lf.set(v)
 		return "unusual-parameter:" + lf.name, JSONBytes(b)
 	case 0:
